@@ -22,7 +22,7 @@ EXPLANATION = (
     "pass is_extended_id = can_id > 0x7FF and id/data/remote from their parameters; R5 the error/remote filter "
     "dominates notify in the listener; R6 scanner: append guarded by not-in, != 0 and service in SERVICES, SERVICES = "
     "predefined connection set, masks 0x780/0x7F and ids above 0x7FF excluded; R7 every library call of unsubscribe "
-    "names its callback."
+    "names its callback. R9 no class-level mutable object is mutated in place by instances (each node/client/map/dictionary has its own state)."
 )
 ASSUMPTIONS = [
     "not decided: arbitrary histories including re-entrant subscribe/unsubscribe from inside a callback",
@@ -226,6 +226,10 @@ def run(chk):
     chk.floor("R7", n_sites, 7, "unsubscribe call sites")
     fired = _bare_fixture()
     chk.fixture("R7", "bare unsubscribe", fired)
+
+    # ------------------------------------------------------------------ R9 instances are independent (shared clause)
+    from . import shared as _shared
+    _shared.isolation(chk, "R9", rels=['canopen/network.py', 'canopen/node/remote.py', 'canopen/node/local.py', 'canopen/node/base.py'])
 
 
 def _bare_fixture() -> bool:
